@@ -94,7 +94,8 @@ def run(ctx):
     ctx.rule = ("molecules over ALL elements x atom types x geometries x bond types (0..40 atoms; labels from a "
                 "whitespace-free ASCII alphabet incl. '#', '@', '****', over-long; names incl. empty, '@<TRIPOS>…'-like, "
                 "'#'-like; coordinates from a boundary set: ±0, ties at the 7th decimal, 1e-7, ±1e7, 1e15, NaN, ±inf; "
-                "charges with ties at the 4th decimal), written as Molecule, as Structure and as ConformerEnsemble. "
+                "charges with ties at the 4th decimal; MULTIGRAPHS: 2..3 parallel bonds on one atom pair with equal and "
+                "different types in both orientations, occasional self-bonds; repeated labels), written as Molecule, as Structure and as ConformerEnsemble. "
                 "A case = one object (write differential + read differential + 3-cycle oracle), one bundled file, "
                 "or one type/number token. Non-trivial: ≥1 atom and (≥1 bond or a non-Regular atom type); "
                 "distinct by canonical hash.")
@@ -143,6 +144,10 @@ def run(ctx):
         r1 = three_cycles(ctx, en, ml.Molecule, t1, "Molecule", replay)
         if r1 is not None:
             c1 = [tl.canon_mol(en, x) for x in r1]
+            # hidden state across reads in one process: the same text read again gives the same molecules
+            st, r1b = tl.limited(lambda: ml.Molecule.loads_all_mol2(t1))
+            if st != "ok" or not tl.mols_equal(c1, [tl.canon_mol(en, x) for x in r1b]):
+                ctx.violation("C07:read-depends-on-history", "the same mol2 text read twice in one process gives different molecules", replay)
             if len(c1) != 1:
                 ctx.violation("C07:molecule-count", f"one molecule written, {len(c1)} read", replay)
             else:
